@@ -64,19 +64,20 @@ var expectedPkgs = []string{
 
 // Prog is the loaded, type-checked and SSA-built program.
 type Prog struct {
-	Dir      string
-	Fset     *token.FileSet
-	All      map[string]*packages.Package // by package path
-	Repo     []*packages.Package          // packages of the repository (sorted)
-	SSA      *ssa.Program
-	nFuncs   int
-	nRepoFns int
-	tags     string
-	cg       *callgraph.Graph
-	callers  map[*ssa.Function][]ssa.CallInstruction
-	closures map[*ssa.Function][]*ssa.MakeClosure
-	facts    map[*ssa.Function]*FuncFacts
-	repoFns  []*ssa.Function
+	Dir         string
+	Fset        *token.FileSet
+	All         map[string]*packages.Package // by package path
+	Repo        []*packages.Package          // packages of the repository (sorted)
+	SSA         *ssa.Program
+	nFuncs      int
+	nRepoFns    int
+	tags        string
+	cg          *callgraph.Graph
+	callers     map[*ssa.Function][]ssa.CallInstruction
+	closures    map[*ssa.Function][]*ssa.MakeClosure
+	comparators map[*ssa.Function]bool
+	facts       map[*ssa.Function]*FuncFacts
+	repoFns     []*ssa.Function
 }
 
 func loadEnv() []string {
